@@ -168,8 +168,31 @@ using S8 = Sig<long, long, int, short, char, unsigned long, unsigned, unsigned s
 using S9 = Sig<unsigned short, unsigned short, short>;
 using S10 = Sig<vst12, int>;
 
+// results on any of the three ABIs: the guest function returns its ABI's type (wider than the application's on ABI C)
+template<typename SbxT, typename T> struct RetAbi {
+  using GT = rlbox::detail::convert_to_sandbox_equivalent_t<T, SbxT>;
+  static inline i128 preset = 0;
+  static GT fn() { return (GT)preset; }
+  static std::string run(rlbox::rlbox_sandbox<SbxT>& sb, i128 v)
+  {
+    if (!representable<GT>(v)) return "badinput";
+    preset = v;
+    auto r = sb.template INTERNAL_invoke_with_func_ptr<T()>("retabi", reinterpret_cast<void*>(&fn));
+    return "ok " + to_dec(as_math(r.UNSAFE_unverified()));
+  }
+};
+template<typename SbxT, size_t... Is> static std::string retabi_dispatch(rlbox::rlbox_sandbox<SbxT>& sb, int ti, i128 v, std::index_sequence<Is...>)
+{
+  std::string out = "badop";
+  ((ti == (int)Is ? (out = RetAbi<SbxT, nth_t<Is, IntTypes>>::run(sb, v), 0) : 0), ...);
+  return out;
+}
+static rlbox::rlbox_sandbox<SbxB> g_sbB;
+static rlbox::rlbox_sandbox<SbxC> g_sbC;
+
 int main()
 {
+  g_sbB.create_sandbox(&g_libs[0]); g_sbC.create_sandbox(&g_libs[0]);
   for (int i = 0; i < 3; i++) g_sb[i].create_sandbox(&g_libs[g_libof[i]]);
   main_loop([&](const std::vector<std::string>& t) -> std::string {
     return guarded([&]() -> std::string {
@@ -183,6 +206,16 @@ int main()
 #define D(N) if (s == "S" #N) return S##N::dispatch(sb, t[3], ret, v);
         D(0) D(1) D(2) D(3) D(4) D(5) D(6) D(7) D(8) D(9) D(10)
 #undef D
+        return "badop";
+      }
+      if (t[0] == "invr" && t.size() == 4) {
+        int ti = int_index(t[2]);
+        if (ti < 0 || ti >= 14) return "badop";      // the 14 types the ABI mapping covers (no wchar_t)
+        i128 v = parse_dec(t[3]);
+        constexpr auto seq = std::make_index_sequence<14>();
+        if (t[1] == "A") return retabi_dispatch<SbxA>(g_sb[0], ti, v, seq);
+        if (t[1] == "B") return retabi_dispatch<SbxB>(g_sbB, ti, v, seq);
+        if (t[1] == "C") return retabi_dispatch<SbxC>(g_sbC, ti, v, seq);
         return "badop";
       }
       if (t[0] == "inamed" && t.size() == 4) {
